@@ -348,6 +348,7 @@ fn dir_struct(rng: &mut Rng) -> Prog {
         }
         9 => {
             // ArrayToVector / VectorGet (u32 and u64 index) / Zip / VectorToArray
+            let x2 = x.clone();
             let v = b.add(vec![x.clone()], Operation::ArrayToVector).unwrap();
             let ist = if rng.chance(1, 2) { UINT32 } else { UINT64 };
             let i = b.add(vec![], Operation::Constant(scalar_type(ist), Value::from_scalar(rng.below(sh[0] + 1), ist).unwrap())).unwrap();
@@ -355,6 +356,11 @@ fn dir_struct(rng: &mut Rng) -> Prog {
             let w = b.add(vec![x], Operation::ArrayToVector).unwrap();
             let z = b.add(vec![v.clone(), w], Operation::Zip);
             if let Some(z) = z { b.add(vec![z], Operation::Repeat(rng.below(3))); }
+            let nt = b.add(vec![x2.clone(), v.clone()], Operation::CreateNamedTuple(vec!["a".into(), "b".into()]));
+            if let Some(nt) = nt {
+                b.add(vec![nt.clone()], Operation::NamedTupleGet(if rng.chance(1, 2) { "a".into() } else { "b".into() }));
+                b.add(vec![nt], Operation::TupleGet(rng.below(2)));
+            }
             b.add(vec![v], Operation::VectorToArray);
         }
         10 => {
@@ -636,7 +642,7 @@ fn monitor(p: &Prog, rng: &mut Rng, out: &mut Out, draws: usize, emit_has_type: 
                     }
                     if emit_has_type && !matches!(op, Operation::Input(_)) {
                         let lhs = format!("has_type {} {}", value_coq(val, &t), ty(&t));
-                        if lhs.len() < 6000 && em.seen.insert(lhs.clone()) {
+                        if lhs.len() < 4000 && em.seen.insert(lhs.clone()) {
                             out.case("T:has_type_node_value", lhs, "true".into(), json!({"op": name, "type": format!("{}", t)}), !deps.is_empty());
                         }
                     }
@@ -663,15 +669,16 @@ pub fn run(tier: &str, seed: u64, out: &mut Out) {
     let (n_single, n_multi, n_dir, draws, per_att) = match tier {
         "thorough" => (1900, 500, 2400, 3, 3),
         "search" => (3000, 1500, 6000, 4, 0),
-        _ => (190, 40, 210, 2, 2),
+        _ => (152, 30, 160, 2, 1),
     };
     let cases = tier != "search";
     let mut em = Emitter { seen: HashSet::new(), accepted: vec![] };
     let mut progs: Vec<(Prog, &'static str)> = vec![];
     // one-operation-family programs over every scalar type, ranks up to 4
     for i in 0..n_single {
-        let st = ALL_ST[i % ALL_ST.len()];
-        let opn = C09_OPS[(i / ALL_ST.len()) % C09_OPS.len()];
+        // every operation family appears in every tier; the scalar type rotates against it
+        let opn = C09_OPS[i % C09_OPS.len()];
+        let st = ALL_ST[(i / C09_OPS.len() + i) % ALL_ST.len()];
         let cfg = GenCfg { n_inputs: 1 + rng.below(3) as usize, n_ops: 1 + rng.below(3) as usize, scalar_types: vec![st, st, st, BIT], ops: vec![opn], small: rng.chance(1, 2) };
         progs.push((gen_program(&mut rng, &cfg), "progen"));
         out.stat(&format!("st:{}", scalar(st)));
@@ -699,7 +706,7 @@ pub fn run(tier: &str, seed: u64, out: &mut Out) {
                 }
             }
         }
-        let emit_ht = cases && rng.chance(1, 3);
+        let emit_ht = cases && rng.chance(1, if tier == "quick" { 6 } else { 3 });
         monitor(p, &mut rng, out, draws, emit_ht, &mut em);
     }
     if cases {
